@@ -170,6 +170,15 @@ where
                 }
                 // If handle is terminated, the stream is dead
                 Poll::Ready(None) => {
+                    // A reply already taken from the replier still goes to its requestor
+                    if buffered_rep.is_some() {
+                        ready!(sink.as_mut().poll_ready(cx)).unwrap();
+
+                        if let Err(e) = sink.as_mut().start_send(buffered_rep.take().unwrap()) {
+                            error!("Failed to send reply to requestor: {e:?}");
+                        }
+                    }
+
                     ready!(sink.as_mut().poll_flush(cx)).unwrap();
 
                     // Requests already handed to the replier must reach the wire as well
